@@ -179,8 +179,10 @@ class PolyAFinder:
         assert soft_clipped_head_len < len(seq)
 
         read_mapped_region_start = soft_clipped_head_len
-        to_check_start = max(0, read_mapped_region_start - to_pos)
-        to_check_end = min(len(seq), read_mapped_region_start + from_pos + 1)
+        # mirror image of the window of find_polya_tail: to_pos + 1 clipped bases before the first mapped base,
+        # from_pos bases from the first mapped base on
+        to_check_start = max(0, read_mapped_region_start - to_pos - 1)
+        to_check_end = min(len(seq), read_mapped_region_start + from_pos)
         sequence_to_check = str(Seq.Seq(alignment.seq[to_check_start:to_check_end]).reverse_complement()).upper()
 
         pos = self.find_polya(sequence_to_check)
